@@ -44,7 +44,7 @@ ASSUMPTIONS = ['the cache dict argument is exempt from the purity clause (mutate
                'static verdicts are only reported when not refuted by execution; sites never executed are counted as static-only',
                'rdp.plot_frame (writes a PNG, prints) is exercised statically only']
 BOUNDS = {'quick': {'dynamic': 'Y013 n=6 complete (729 curves) x all registered argument patterns x 5 representations', 'large integers': 'Y013 n=5 complete re-embedded as x*2^32,y*2^32 / x*2^33 / y*2^33 / offset 2^40 on both axes (int64 products overflow, float64 exact)', 'static': 'all reference sites of all 15 modules + __init__'},
-          'thorough': {'dynamic': 'A1 n=6 (4096 curves) + Y013 n=7 (2187 curves)', 'large integers': 'as quick plus 2^45, 2^31 scalings and x = 10^12 + 1000 i', 'static': 'same'}}
+          'thorough': {'dynamic': 'A1 n=6 (4096 curves) + Y013 n=7 (2187 curves) + A12 n=5 (16384 curves, uneven gaps)', 'large integers': 'as quick plus 2^45, 2^31 scalings and x = 10^12 + 1000 i', 'static': 'same'}}
 TECHNIQUE = 'exhaustive enumeration of public functions x argument patterns x array representations on the real code; exhaustive enumeration of reference sites resolved by a name-resolution model with dynamic conformance replay'
 LEVEL_TEXT = ('Model checking: (dynamic) every public function on every curve of the profile in C/F/strided/int64/read-only representations with before/after argument comparison, '
               'repeat-call and cross-representation agreement; (static) every name, module attribute and intra-package call site resolved against the live modules, the resolver being '
@@ -489,7 +489,7 @@ BIGINT = [curves.scaled(curves.Y013, 2.0 ** 32, 2.0 ** 32), curves.scaled(curves
 
 
 def units(tier, seed):
-    plan = [('Y013', 6, 48)] if tier == 'quick' else [('A1', 6, 256), ('Y013', 7, 128)]
+    plan = [('Y013', 6, 48)] if tier == 'quick' else [('A1', 6, 256), ('Y013', 7, 128), ('A12', 5, 512)]
     b = curves.bonus(seed, curves.A1)
     plan.append((b.name, 5, 8))
     # "the same results for int64 and float64 representations of the same values": integer coordinates whose
